@@ -268,7 +268,9 @@ def handle (op : String) (j : Json) : Option (Except String Json) :=
       | .del _ _ _ => true
     -- premise of the function-table theorems (Props.C06 / C09): cache and table in step, cache keys are blocks
     let minv := ir.fbb.all (fun (b, f) => ((alookup f ir.aux.funcBlocks).getD []).contains b && (ir.block? b).isSome) &&
-      ir.aux.funcBlocks.all (fun (f, bs) => bs.all (fun b => alookup b ir.fbb == some f))
+      ir.aux.funcBlocks.all (fun (f, bs) => bs.all (fun b => alookup b ir.fbb == some f)) &&
+      -- … and of `Props.C06.entries_are_blocks_after_apply`: entries are blocks of their function
+      ir.aux.funcEntries.all (fun (f, es) => es.all (fun b => ((alookup f ir.aux.funcBlocks).getD []).contains b))
     let func : Option Nat := match j.getObjVal? "func" with
       | .ok v => v.getNat?.toOption
       | .error _ => none
